@@ -2,6 +2,7 @@ package sim
 
 import (
 	"fmt"
+	"os"
 	"math"
 	"math/rand"
 	"sort"
@@ -40,6 +41,10 @@ func profileByName(name string, r *rand.Rand) Profile {
 		p.CompactPct, p.WMisc, p.CCPct, p.DropPct = 100, 8, 10, 10
 	case "churn":
 		p.CCPct, p.WMisc, p.CrashPct, p.DropPct = 100, 9, []int{0, 10}[r.Intn(2)], []int{0, 5}[r.Intn(2)]
+	case "churn-lag":
+		// membership changes while apply threads lag and links flap: elections
+		// under configurations that are a few changes behind
+		p.CCPct, p.WMisc, p.AppLagPct, p.WNet, p.WTick, p.CrashPct, p.DropPct, p.CampaignPct = 100, 9, 90, 5, 24, 5, 5, 30
 	case "flow":
 		p.BigPct, p.WPropose, p.DropPct, p.DupPct, p.StalePct, p.CrashPct = 40, 16, 15, 15, 40, 5
 	case "read":
@@ -96,6 +101,9 @@ func GenWorld(seed int64, prop string, idx int, steps int) WorldCfg {
 	}
 	cfg := WorldCfg{Seed: ws, Prop: prop, Steps: steps, HealBound: 120}
 	cfg.Prof = profileByName(mix[r.Intn(len(mix))], r)
+	if f := os.Getenv("RV_PROFILE"); f != "" {
+		cfg.Prof = profileByName(f, r)
+	}
 	nn := []int{1, 2, 3, 3, 3, 4, 5, 5}[r.Intn(8)]
 	if prop == "C19" && r.Intn(4) == 0 {
 		nn = 8 + r.Intn(2) // more than 7 peers: the allocation path of ProgressTracker.Visit
@@ -103,7 +111,7 @@ func GenWorld(seed int64, prop string, idx int, steps int) WorldCfg {
 	cfg.ElectionTick = []int{3, 5, 10}[r.Intn(3)]
 	cfg.HeartbeatTick = []int{1, 1, 2}[r.Intn(3)]
 	cfg.Universe = max(nn, min(7, nn+r.Intn(3)))
-	if cfg.Prof.Name == "churn" {
+	if cfg.Prof.Name == "churn" || cfg.Prof.Name == "churn-lag" {
 		cfg.Universe = max(nn, min(7, nn+2+r.Intn(2)))
 	}
 	cfg.Durable = r.Intn(8) != 0
@@ -118,7 +126,7 @@ func GenWorld(seed int64, prop string, idx int, steps int) WorldCfg {
 		cfg.Voters = cfg.Voters[:nn-1]
 	}
 	allAsync := r.Intn(3)
-	if cfg.Prof.Name == "async-lag" {
+	if cfg.Prof.Name == "async-lag" || cfg.Prof.Name == "churn-lag" {
 		allAsync = 0
 	}
 	mixed := r.Intn(3) == 0 // mixed PreVote/CheckQuorum flags
